@@ -217,6 +217,40 @@ pub fn run_prop<P: Prop>(p: &P, o: &RunOpts) -> Value {
     // enumerated part (shard 0 only)
     let mut fixed_run = 0u64;
     let mut fixed_failure: Option<(String, String)> = None;
+    // thorough tier: huge-input probes with closed-form oracles (fast build only: memory)
+    let mut probes_run = 0u64;
+    if o.shard == 0 && o.dump_index.is_none() && o.build == "fast" && std::env::var("QV_NO_HUGE").is_err() {
+        for pr in crate::huge::probes_for(p.id()) {
+            if o.tier != Tier::Thorough && !pr.quick {
+                continue;
+            }
+            let mut ctx = Ctx { build: o.build.clone(), thorough: true, ..Ctx::default() };
+            let r = catch(|| (pr.run)(&mut ctx));
+            probes_run += 1;
+            {
+                let mut s = st.borrow_mut();
+                s.evaluations += 1;
+                s.queries += ctx.queries;
+                *s.labels.entry(format!("huge-probe:{}", pr.name)).or_insert(0) += 1;
+            }
+            let m = match r {
+                Ok(Ok(())) => None,
+                Ok(Err(f)) => Some(f.msg),
+                Err(pm) => {
+                    let n = current_note();
+                    Some(format!("panic: {pm} during {}({}, {}, {})", n.op, n.a, n.b, n.c))
+                }
+            };
+            if let Some(m) = m {
+                let text = format!("{{\"property\":{},\"build\":{},\"message\":{},\"probe\":{}}}",
+                    serde_json::to_string(p.id()).unwrap(), serde_json::to_string(&o.build).unwrap(),
+                    serde_json::to_string(&m).unwrap(), serde_json::to_string(pr.name).unwrap());
+                fixed_failure = Some((m, text));
+                break;
+            }
+        }
+    }
+    if fixed_failure.is_none() {
     if o.shard == 0 && o.dump_index.is_none() {
         for case in p.fixed_cases(o.tier) {
             let mut ctx = Ctx { build: o.build.clone(), thorough: o.tier == Tier::Thorough, ..Ctx::default() };
@@ -245,6 +279,7 @@ pub fn run_prop<P: Prop>(p: &P, o: &RunOpts) -> Value {
             }
         }
     }
+    }
     if let Some((m, text)) = fixed_failure {
         let s = st.into_inner();
         return json!({
@@ -253,7 +288,7 @@ pub fn run_prop<P: Prop>(p: &P, o: &RunOpts) -> Value {
             "labels": s.labels, "nt_hashes": Vec::<String>::new(), "samples": Vec::<Value>::new(),
             "transcripts": Vec::<String>::new(),
             "failure": {"message": m, "first_message": "enumerated (fixed) case", "case_index": fixed_run},
-            "failure_file_text": text, "rule": p.rule(), "extra": {"fixed_cases": fixed_run},
+            "failure_file_text": text, "rule": p.rule(), "extra": {"fixed_cases": fixed_run, "huge_probes": probes_run},
             "wall_s": t0.elapsed().as_secs_f64(),
         });
     }
@@ -381,7 +416,7 @@ pub fn run_prop<P: Prop>(p: &P, o: &RunOpts) -> Value {
         "failure": failure,
         "failure_file_text": failing_case_text,
         "rule": p.rule(),
-        "extra": {"fixed_cases": fixed_run},
+        "extra": {"fixed_cases": fixed_run, "huge_probes": probes_run},
         "wall_s": t0.elapsed().as_secs_f64(),
     });
     out
@@ -404,6 +439,23 @@ pub fn replay_prop<P: Prop>(p: &P, text: &str, build: &str, strict: bool) -> (bo
     #[derive(serde::Deserialize)]
     struct File<C> {
         case: C,
+    }
+    #[derive(serde::Deserialize)]
+    struct ProbeFile {
+        probe: String,
+    }
+    if let Ok(pf) = serde_json::from_str::<ProbeFile>(text) {
+        for pr in crate::huge::probes_for(p.id()) {
+            if pr.name == pf.probe {
+                let mut ctx = Ctx { strict, build: build.to_string(), thorough: true, ..Ctx::default() };
+                return match catch(|| (pr.run)(&mut ctx)) {
+                    Ok(Ok(())) => (true, format!("probe {} held ({} comparisons)", pr.name, ctx.queries)),
+                    Ok(Err(fl)) => (false, fl.msg),
+                    Err(pm) => (false, format!("panic: {pm}")),
+                };
+            }
+        }
+        return (false, format!("unknown probe {}", pf.probe));
     }
     let f: File<P::Case> = match serde_json::from_str(text) {
         Ok(f) => f,
